@@ -1,6 +1,7 @@
 import IcyVerif.Drv.Font
 import IcyVerif.Drv.Tdf
 import IcyVerif.Drv.FontBox
+import IcyVerif.Drv.FontDcs
 open IcyVerif.Drv
 
 def dispatch (line : String) : String :=
@@ -8,6 +9,7 @@ def dispatch (line : String) : String :=
   | "font" :: rest => Font.handle rest
   | "tdf" :: rest => Tdf.handle rest
   | "fontbox" :: rest => FontBox.handle rest
+  | "fontdcs" :: rest => FontDcs.handle rest
   | _ => "bad-op"
 
 partial def loop (h : IO.FS.Stream) (out : IO.FS.Stream) : IO Unit := do
